@@ -10,6 +10,7 @@ import SpecVerif.Model.Minvar
 import SpecVerif.Model.Estimators
 import SpecVerif.Model.Eigen
 import SpecVerif.Model.Mtm
+import SpecVerif.Model.ClassGlue
 import SpecVerif.Model.Window
 /-
   Line-protocol driver for the executable model (no Mathlib anywhere below this file, so it links as a
@@ -299,6 +300,10 @@ def handle (cmd : String) (hd : List String) (vs : List (List K)) : Reply K :=
         else
           let raw := arma2psd t A B (scalAt vs 2) (scalAt vs 3) nfft
           .ok [classPsd raw (natAt hd 0 = 1) nfft (natAt hd 2 = 1) (scalAt vs 4) (scalAt vs 3)])
+  | "classglue" =>
+      -- classglue kind isReal nfft scale | raw | twoPi | sampling
+      let kind := match strAt hd 0 with | "take" => GlueKind.take | "eigen" => GlueKind.eigen | _ => GlueKind.fold2
+      .ok [classCall kind (vecAt vs 0) (natAt hd 1 = 1) (natAt hd 2) (natAt hd 3 = 1) (scalAt vs 1) (scalAt vs 2)]
   | "classpsd" =>
       -- classpsd isReal nfft scale | raw | twoPi | sampling
       .ok [classPsd (vecAt vs 0) (natAt hd 0 = 1) (natAt hd 1) (natAt hd 2 = 1) (scalAt vs 1) (scalAt vs 2)]
